@@ -143,6 +143,10 @@ func (d *db) scanObsoleteFiles(list []string) {
 }
 
 func (d *db) notifyDeleteObsoleteWorker() {
+	if verifEnabled {
+		d.verifNotifyDeleteObsolete()
+		return
+	}
 	select {
 	case d.deleteObsoleteCh <- struct{}{}:
 	default:
@@ -150,6 +154,9 @@ func (d *db) notifyDeleteObsoleteWorker() {
 }
 
 func (d *db) deleteObsoleteWorkerMain() {
+	if verifEnabled {
+		return
+	}
 	for {
 		select {
 		case <-d.deleteobsoleteWorker.ShouldStop():
